@@ -30,6 +30,9 @@ FLAVOURS = {
     # an ABI that sizes every enum by its enumerators (gcc -fshort-enums; the default of arm-none-eabi and other bare-metal ABIs): library AND
     # callers are compiled that way, as they would be on such a target (pv_norm.c, the only file that talks to the prebuilt libutf8proc, is not)
     'asan-shortenum': {'cc': 'gcc', 'cflags': SAN + ' -DNDEBUG -fshort-enums', 'no_flag_for': {'pv_norm.c': ['-fshort-enums']}},
+    # glibc's fortified string functions at the highest level: object-size checks on memcpy/strcpy/... also catch overflows that stay inside
+    # an enclosing object (one struct member into the next), which red-zone based tools cannot see
+    'fortify': {'cc': 'gcc', 'cflags': '-O2 -g -DNDEBUG -D_FORTIFY_SOURCE=3'},
     'asan-cp932': {'cc': 'gcc', 'cflags': SAN + ' -DNDEBUG', 'lib_cflags': '-fexec-charset=CP932'},
     'tsan':     {'cc': 'gcc', 'cflags': '-O1 -g -fsanitize=thread -DNDEBUG'},
     # libc entry points reachable from the library are interposed at link time (C11, C15, C18)
@@ -217,7 +220,7 @@ PROPS['C06'] = {
              {'name': 'native', 'flavour': 'asan-native', 'driver': 'drv_c06', 'env': {'PV_SCALE': '15'}, 'shards': 4},
              # no 32-bit C library exists in this image: the library is built freestanding for i386 and x86-64 and the two programs must print the same transcript
              {'name': 'ilp32', 'kind': 'ilp32', 'flavour': 'ilp32', 'driver': 'ilp32'}],
-    'require': {'roundtrip.created_with_out_of_range_clock_ok': 1000, 'concurrent.loads_equal_specification': 50000, 'roundtrip.ok': 50000, 'ilp32.transcript_lines_compared': 5000, 'buffers.alignment_mod8.1': 10000, 'buffers.alignment_mod8.7': 10000, 'fields.16bit_rows': 2000, 'fields.8bit_rows': 30, 'load.bytes8-9.recomputed-check.OK': 1000, 'load.bytes8-9.recomputed-check.ERR_UNSUPPORTED': 1000,
+    'require': {'buffers.on_a_read_only_page_before_a_guard_page': 20000, 'roundtrip.created_with_out_of_range_clock_ok': 1000, 'concurrent.loads_equal_specification': 50000, 'roundtrip.ok': 50000, 'ilp32.transcript_lines_compared': 5000, 'buffers.alignment_mod8.1': 10000, 'buffers.alignment_mod8.7': 10000, 'fields.16bit_rows': 2000, 'fields.8bit_rows': 30, 'load.bytes8-9.recomputed-check.OK': 1000, 'load.bytes8-9.recomputed-check.ERR_UNSUPPORTED': 1000,
                 'load.bytes8-9.recomputed-check.ERR_FORMAT': 1000, 'load.bytes30-31.ERR_CHECKSUM': 1000, 'load.random-with-framing+recomputed-check.OK': 100},
 }
 MANIFEST_TEXT['C06'] = {'technique': 'runtime monitoring: store/load on exact-size heap buffers vs model image codec; exhaustive field sweeps around valid images (ASan/UBSan) + ledger',
@@ -364,7 +367,7 @@ MANIFEST_TEXT['C20'] = {'technique': 'runtime monitoring: ThreadSanitizer build 
 # Configuration stripes: "which code is compiled" is an input of every property (DESIGN.md 2.9, lessons i and v).  Every functional driver
 # that does not need the libc interposition flavours also runs a thin stripe of its workload on: a library built with unsigned plain char,
 # a clang build, -march=native, MemorySanitizer, a non-UTF-8 execution charset, and the assertion-enabled build.
-_AXES = [('shortenum', 'asan-shortenum', '6'), ('nognu', 'clang-nognu', '6'), ('fs16', 'asan-fs16', '6'), ('uchar', 'uchar', '8'), ('clang', 'clang-asan', '8'), ('native', 'asan-native', '8'), ('msan', 'msan', '8'), ('cp932', 'asan-cp932', '5'), ('asan-dbg', 'asan-dbg', '6')]
+_AXES = [('fortify', 'fortify', '8'), ('shortenum', 'asan-shortenum', '6'), ('nognu', 'clang-nognu', '6'), ('fs16', 'asan-fs16', '6'), ('uchar', 'uchar', '8'), ('clang', 'clang-asan', '8'), ('native', 'asan-native', '8'), ('msan', 'msan', '8'), ('cp932', 'asan-cp932', '5'), ('asan-dbg', 'asan-dbg', '6')]
 for _p in ('C01', 'C02', 'C03', 'C04', 'C05', 'C06', 'C07', 'C08', 'C09', 'C10', 'C12', 'C14', 'C17'):
     _runs = PROPS[_p]['runs']
     _drv = _runs[0]['driver']
